@@ -43,7 +43,7 @@ def observe(cmd, args):
         text, items = args[0], mkitems(args[1:])
         def f(t, its):
             ss = SpecifierSet(t)
-            out = [str(ss), len(ss), sorted(str(s) for s in ss), ss.prereleases]
+            out = [str(ss), len(ss), [str(s) for s in ss], ss.prereleases]      # members in iteration order: it must not depend on the hash seed
             for it in its:
                 try: out.append(ss.contains(it))
                 except InvalidVersion: out.append("EV")
@@ -116,6 +116,13 @@ def observe(cmd, args):
             return {k: sorted(v) for k, v in out.items()}
         r = guarded(f, raw, order)
         return "REPEAT-DIFFERS " + r if "REPEAT-DIFFERS-WITHIN" in r else r
+    if cmd == "det.meta.validate":  # raw dict (JSON): validated construction; the error group's members in the order they are reported
+        raw = json.loads(args[0])
+        def f(d):
+            try: m = Metadata.from_raw(d)
+            except ExceptionGroup as e: return ["G", [x.field for x in e.exceptions if isinstance(x, InvalidMetadata)], len(e.exceptions)]
+            return ["OK", str(m.name), str(m.version)]
+        return guarded(f, raw)
     if cmd == "det.email":
         def f(t): return list(parse_email(t))
         return guarded(f, args[0] if args[1] == "s" else args[0].encode("latin-1"))
@@ -199,6 +206,14 @@ def observe(cmd, args):
             elif kind == "req-clauses":
                 a, c = Requirement("foo " + ",".join(items)), Requirement("foo " + ",".join(p))
                 obs = lambda s: (str(s), hash(s), str(s.specifier))
+            elif kind in ("set-objects", "and-objects"):
+                # members are Specifier objects carrying their own pre-release setting: "<T|F|N><clause>"
+                TRI = {"T": True, "F": False, "N": None}
+                mk = lambda lst: [Specifier(x[1:], prereleases=TRI[x[0]]) for x in lst]
+                if kind == "set-objects": a, c = SpecifierSet(mk(items)), SpecifierSet(mk(p))
+                else: a, c = SpecifierSet(mk(items[:1])) & SpecifierSet(mk(items[1:])), SpecifierSet(mk(items[1:])) & SpecifierSet(mk(items[:1]))
+                cands = ["1.0", "2.0a1", "0.5", "3.0", "1.0.dev1", "2.0"]
+                obs = lambda s: (str(s), hash(s), len(s), s.prereleases, [s.contains(x) for x in cands], [s.contains(x, prereleases=True) for x in cands], [str(x) for x in s.filter(cands)])
             elif kind == "tags":
                 a, c = parse_tag("-".join(".".join(x.split("+")) for x in items)), None
                 its2 = [".".join(r.sample(x.split("+"), len(x.split("+")))) for x in items]
